@@ -57,6 +57,13 @@ pub struct Program {
     /// second client on the primary running these ops concurrently with `ops`
     pub concurrent_on_primary: Vec<Op>,
     pub latency_us: (u64, u64),
+    /// conflict strategy of the working database (none or newer)
+    #[serde(default = "default_strategy")]
+    pub strategy: String,
+}
+
+fn default_strategy() -> String {
+    "none".to_string()
 }
 
 const KEYS: [&str; 3] = ["ka", "kb", "n"];
@@ -68,7 +75,7 @@ fn gen_op(rng: &mut Rng, uniq: &mut u32, allow_setsafe: bool) -> Op {
         0..=4 => Op::Set { key, val: if rng.chance(1, 4) { format!("{}", rng.range(0, 30)) } else { format!("v{}", uniq) } },
         5 | 6 => {
             if allow_setsafe {
-                Op::SetSafe { key, delta: rng.range(0, 1) as i32, val: format!("s{}", uniq) }
+                Op::SetSafe { key, delta: rng.range(0, 2) as i32 - 1, val: format!("s{}", uniq) }
             } else {
                 Op::Set { key, val: format!("v{}", uniq) }
             }
@@ -103,7 +110,8 @@ fn gen(rng: &mut Rng, concurrent: bool) -> Program {
         }
     }
     let latency_us = if rng.chance(1, 2) { (0, 0) } else { (rng.range(50, 500), rng.range(500, 20_000)) };
-    Program { nodes, ops, settle_each, concurrent_on_primary: conc, latency_us }
+    let strategy = if rng.chance(1, 3) { "newer" } else { "none" }.to_string();
+    Program { nodes, ops, settle_each, concurrent_on_primary: conc, latency_us, strategy }
 }
 
 pub type NodeDump = BTreeMap<String, (String, BTreeMap<String, Entry>)>;
@@ -210,7 +218,7 @@ fn execute(prog: Program) -> Outcome {
     };
     // a database to work on, created on the primary and replicated
     let mut padmin = Session::admin(&dbs[0]);
-    if padmin.exec("create-db d tok none").resp.is_err() {
+    if padmin.exec(&format!("create-db d tok {}", prog.strategy)).resp.is_err() {
         return out;
     }
     if !w.settle(200, 5_000) {
@@ -250,6 +258,14 @@ fn execute(prog: Program) -> Outcome {
         let node = (*node).min(prog.nodes - 1);
         let line = line_for(op, &mut sessions[node]);
         let r = sessions[node].exec(&line);
+        if matches!(op, Op::Snapshot { .. }) {
+            // the request is replicated; let every node's snapshot thread run it now (it races with the
+            // operations that follow unless the history waits for quiescence after each one)
+            sleep_ms(1);
+            for i in 0..prog.nodes {
+                w.declutter_kick(i);
+            }
+        }
         out.ops_applied += 1;
         if node != 0 {
             out.ops_at_secondary += 1;
@@ -297,7 +313,18 @@ fn execute(prog: Program) -> Outcome {
             // witness class: which kinds of operations touched the diverged key and where. Writes that
             // replace the value (set-like) are told apart from the ones that commute (increment).
             let set_like = |v: &Vec<String>| v.iter().any(|k| matches!(k.as_str(), "set" | "set-safe" | "create-user" | "set-permissions" | "create-db"));
-            let shape = if sec.is_empty() {
+            // a remove of a key behaves differently on a node that has persisted the key (it leaves a
+            // tombstone that keeps the version) and on one that has not (the key is dropped and starts
+            // again at version 0): flagged (for version differences only) when the history contains a snapshot and a remove of the key
+            let snapshot_before_remove = field == "version"
+                && prog.ops.iter().any(|(_, o)| matches!(o, Op::Snapshot { .. }))
+                && (prog.ops.iter().map(|(_, o)| o).chain(prog.concurrent_on_primary.iter())).any(|o| matches!(o, Op::Remove { key: k } if *k == key));
+            let shape = if snapshot_before_remove {
+                let mut all: Vec<String> = sec.iter().chain(pri.iter()).cloned().collect();
+                all.sort();
+                all.dedup();
+                format!("{}:remove-after-snapshot:{}:{}", if sec.is_empty() { "primary-origin-only" } else { "secondary-origin" }, mode, all.join("+"))
+            } else if sec.is_empty() {
                 if mode == "two-clients" && (set_like(&pri) || pri.iter().any(|k| k == "remove")) {
                     format!("primary-origin-only:two-clients:non-commuting:{}", pri.join("+"))
                 } else {
